@@ -167,6 +167,10 @@ def run_oracle_case(w, rng, policy, case, stats, n_values=2):
     st, U = qo.call(fname, root, sel=sel, rec=rec, key=key)
     vals = [qo.value_of(fname, e, key, root) for e in U] if st == 'ok' else []
     patsets = qo.derive_patterns(rng, vals, n_values) if qo.FUNCS[fname][2] else []
+    if patsets and key == 'EDIF.identifier' and getattr(w, 'extra_patterns', None):
+        # identifiers of elements whose creation was refused earlier: nothing carries them
+        patsets.append(([rng.choice(w.extra_patterns)], True, False, 'refused-orphan-identifier'))
+        patsets.append((list(w.extra_patterns), True, False, 'refused-orphan-identifiers'))
     stats['oracle:%s' % fname] += 1
     stats['rootkind:%s' % (qo.root_kind(w, roottok) if roottok[0] != 'L' else 'list')] += 1
     return qo.check_case(w, fname, roottok, sel, rec, key, patsets, policy, stats)
